@@ -3038,6 +3038,13 @@ func TestZZVerifC07Trace(t *testing.T) {
 	}
 
 	fe := rng.Intn(8) != 0 || ms == 0
+	if zzGetenv("VERIF_C07_SCANLOG") != "" || zzGetenv("VERIF_C07_BURST") != "" {
+		// These two histories are about the files (flushes, scan windows over
+		// them, disorder carried to disk): they run with file logging on.  The
+		// spec's shorthands for them (RecordMany, Burst) are stated for that
+		// mode as well.
+		fe = true
+	}
 	x := zzC07NewLog(t.TempDir(), zzSeed()+int64(hist))
 	if err := x.open(ms, fe, true, false); err != nil {
 		t.Fatalf("open: %v", err)
